@@ -1482,9 +1482,12 @@ impl Vm {
         let receiver = self.peek(arg_count);
         let class = match receiver {
             Value::ObjInstance(instance) => {
-                if let Some(value) = instance.borrow().fields.get(&name) {
-                    self.poke(arg_count, *value);
-                    return self.call_value(*value, arg_count);
+                // Copy the field out first: once it has replaced the instance on the stack nothing
+                // may keep the instance alive, so no borrow of it may span the call.
+                let field = instance.borrow().fields.get(&name).copied();
+                if let Some(value) = field {
+                    self.poke(arg_count, value);
+                    return self.call_value(value, arg_count);
                 }
                 instance.borrow().class
             }
